@@ -1,4 +1,4 @@
-/* region1_model.h — C19: executable model of the four pixman_region32 entry points that
+/* region1_model.h — C19: executable model of the five pixman_region32 entry points that
  * pixman_image_fill_boxes uses, for regions of AT MOST ONE rectangle.
  *
  * Trusted base of the C19 fill_boxes jobs (the real region code is the subject of
@@ -62,6 +62,25 @@ pixman_region32_intersect (pixman_region32_t *new_reg, pixman_region32_t *reg1, 
         new_reg->data = (pixman_region32_data_t *) 0;
     }
     return TRUE;
+}
+
+/* added by the lead after the fix: commit f438b65 (the direct-fill path now also intersects with the
+ * image bounds): intersection with the rectangle (x, y, width, height); a zero-size rectangle gives the
+ * empty region (the real function's behaviour for that degenerate argument is known finding C06
+ * canon32.intersect_rect_empty_arg; image sizes are >= 1 in every harness using this model) */
+pixman_bool_t
+pixman_region32_intersect_rect (pixman_region32_t *dest, pixman_region32_t *source,
+                                int x, int y, unsigned int width, unsigned int height)
+{
+    pixman_region32_t r;
+    r.extents.x1 = x;
+    r.extents.y1 = y;
+    r.extents.x2 = x + (int) width;
+    r.extents.y2 = y + (int) height;
+    r.data = (pixman_region32_data_t *) 0;
+    if (r.extents.x1 >= r.extents.x2 || r.extents.y1 >= r.extents.y2)
+        r.data = &vc_region_empty;
+    return pixman_region32_intersect (dest, source, &r);
 }
 
 pixman_box32_t *
